@@ -581,6 +581,25 @@ func (h *hist) opCall() {
 	h.logf("call %s record=%q (%s) fault=%s stub=%d input=%q scan=%d -> err=%q receiver=%s", name, rec.Bytes, rec.Desc, faultNames[fault], stub, clip(preIn), scanKind, errText, showVal(h.cur(ty)))
 	h.res.Extra.Inc("calls")
 
+	// H for the method-level entries: the same content under the same configuration gives the
+	// same outcome (error text, or decoded value) every time in a history
+	if stub == 0 && !panicked && (entry == EUnmarshalText || entry == EUnmarshalJSON || entry == EUnmarshalBinary) {
+		key := "m/" + name + "/" + configKey() + "\x00" + string(preIn)
+		now := memoEntry{errText: errText, step: h.step}
+		if err == nil {
+			now.val = deep(h.cur(ty))
+		}
+		if m, ok := h.memo[key]; ok {
+			h.res.Probes.Inc("same_content_unmarshaled_again")
+			if m.errText != now.errText || m.val != now.val {
+				if h.violate("H-history-dependence", name, fmt.Sprintf("%s on %q gave (%s, %q) at op %d of this history and gives (%s, %q) now, under the same configuration", name, clip(preIn), showVal(m.val), m.errText, m.step, showVal(now.val), now.errText)) {
+					return
+				}
+			}
+		} else if len(h.memo) < 256 {
+			h.memo[key] = now
+		}
+	}
 	// B: input immutability
 	if !bytes.Equal(data, preIn) {
 		if h.violate("B-input-modified", name, fmt.Sprintf("%s modified the bytes it was given: before %q after %q", name, clip(preIn), clip(data))) {
